@@ -8,7 +8,8 @@ PATCH=$SD/patch.diff
 cd /repo && git status --short | grep -q . && { echo "/repo not clean"; exit 2; }
 git -C /repo apply "$PATCH" || { echo "patch does not apply"; exit 2; }
 # restore /repo and rebuild the harness against the restored tree (so no mutated binary is left behind)
-trap 'git -C /repo checkout -- . ; (cd /verif/harness && CARGO_NET_OFFLINE=true cargo build >/dev/null 2>&1)' EXIT
+# (set TRY_SEED_NO_REBUILD=1 in long loops: every check rebuilds the harness itself; rebuild once at the end)
+trap 'git -C /repo checkout -- . ; [ -n "${TRY_SEED_NO_REBUILD:-}" ] || (cd /verif/harness && CARGO_NET_OFFLINE=true cargo build >/dev/null 2>&1)' EXIT
 cd /verif
 for p in "$@"; do
   out=$(./check $p 2>&1); rc=$?
